@@ -202,6 +202,37 @@ pub mod parse;
 pub mod read;
 pub mod write;
 
+/// Verification hooks (compiled only with `--cfg sierradb_verif`).
+#[cfg(sierradb_verif)]
+pub mod verif {
+    use std::collections::HashMap;
+    use std::os::unix::fs::MetadataExt;
+    use std::sync::Mutex;
+
+    /// (device, inode) of a segment file -> length known to be durable (`sync_data` returned)
+    /// and still valid (not truncated).
+    pub static DURABLE: Mutex<Option<HashMap<(u64, u64), u64>>> = Mutex::new(None);
+
+    pub fn record_durable(file: &std::fs::File, len: u64) {
+        if let Ok(meta) = file.metadata() {
+            let mut guard = DURABLE.lock().unwrap();
+            guard
+                .get_or_insert_with(HashMap::new)
+                .insert((meta.dev(), meta.ino()), len);
+        }
+    }
+
+    pub fn durable_len(path: impl AsRef<std::path::Path>) -> Option<u64> {
+        let meta = std::fs::metadata(path).ok()?;
+        DURABLE
+            .lock()
+            .unwrap()
+            .as_ref()?
+            .get(&(meta.dev(), meta.ino()))
+            .copied()
+    }
+}
+
 const LEN_SIZE: usize = mem::size_of::<u32>();
 const CRC32C_SIZE: usize = mem::size_of::<u32>();
 
